@@ -375,6 +375,8 @@ class Backend:
         self.tok_n += 1
         self.token = f"tok-{self.tok_n}"
         self.tok_version[self.token] = self.version
+        self.inv_start_status = getattr(self, "inv_start_status", {})
+        self.inv_start_status[self.inv] = {o["Id"]: o["Status"] for o in self.history()}
         ops = [self.op_wire(o, True) for o in self.history()]
         if self.first_page is None or len(ops) <= 1 + self.first_page:
             first, rest = ops, []
@@ -460,6 +462,7 @@ class FakeBoto:
         self.inv = inv
         self.n = 0  # API call index within this invocation
         self.failed_at = None
+        self.last_version = backend.version
         self.calls_after_failure = 0
         self.hooks = hooks
 
@@ -501,6 +504,7 @@ class FakeBoto:
             raise ServiceFault(code, msg, status)
         out = fn()
         rec["applied"] = True
+        self.last_version = b.version
         if s is not None:
             b.now = max(b.now, s.now)
         if self.hooks and self.hooks.get("after_apply"):
